@@ -299,6 +299,11 @@ func (s *Sys) deliverAck(src *world.Chain, signer world.Account, msgs []sdk.Msg,
 			add("C06", "tss-secured-ack-accepted-from-another-signer", fmt.Sprintf("ack %s on %s signed by %s", what, short[src.Name], am.Signer))
 		}
 	} else {
+		if early := s.beforeDelay(src, dst, am.ProofHeight); early != "" {
+			for _, prop := range []string{"C05", "C02", "C03"} {
+				add(prop, "acknowledgement-accepted-before-the-delay-period", fmt.Sprintf("ack %s on %s: %s", what, short[src.Name], early))
+			}
+		}
 		ver := int64(am.ProofHeight.RevisionHeight) - 1
 		truth := dst.StoreAt(host.PacketAcknowledgementKey(p.SrcChain, p.DstChain, p.Sequence), ver)
 		if !bytes.Equal(truth, ha[:]) {
